@@ -5,14 +5,14 @@ From Verif.Base Require Import Tactics.
 From Verif.C02 Require Import ModelBase Extracted Model Proofs.
 Local Open Scope N_scope.
 
-Definition ids (bs : list blob) : list id := map b_id bs.
+Definition ids (bs : list blob) : list id := map b_key bs.
 Fixpoint occ (x : id) (bs : list blob) : N :=
-  match bs with [] => 0 | b :: tl => (if b_id b =? x then 1 else 0) + occ x tl end.
+  match bs with [] => 0 | b :: tl => (if b_key b =? x then 1 else 0) + occ x tl end.
 
 Lemma occ_notin : forall x bs, ~ In x (ids bs) -> occ x bs = 0.
 Proof.
   induction bs as [|b tl IH]; intro H; cbn [occ]; [reflexivity|].
-  cbn [ids map In] in H. destruct (b_id b =? x) eqn:E.
+  cbn [ids map In] in H. destruct (b_key b =? x) eqn:E.
   - apply N.eqb_eq in E. exfalso. apply H. left. exact E.
   - rewrite IH; [reflexivity|]. intro K. apply H. right. exact K.
 Qed.
@@ -37,20 +37,20 @@ Lemma pass1_none : forall bs m m' pre,
 Proof.
   induction bs as [|b tl IH]; intros m m' pre H; cbn [pass1] in H.
   - inv H. split; [reflexivity|]. intro x. destruct (m' x); [|reflexivity]. cbn [occ]. split; [f_equal; lia|lia].
-  - destruct (m (b_id b)) as [c|] eqn:Eb.
+  - destruct (m (b_key b)) as [c|] eqn:Eb.
     + destruct (c =? 0) eqn:E0.
       * destruct (pass1 m tl) as [[m1 pre1] r1] eqn:P. inv H.
         apply IH in P. destruct P as [-> D]. split; [reflexivity|].
         intro x. specialize (D x). cbn [occ]. destruct (m x) as [cx|] eqn:Ex; [|exact D].
-        destruct D as [D1 D2]. destruct (b_id b =? x) eqn:E.
+        destruct D as [D1 D2]. destruct (b_key b =? x) eqn:E.
         -- apply N.eqb_eq in E. subst x. rewrite Eb in Ex. inv Ex. apply N.eqb_eq in E0. subst cx.
            rewrite D1. split; [f_equal; lia|lia].
         -- rewrite D1. split; [f_equal; lia|lia].
       * destruct (c - 1 =? 0) eqn:E1; [inv H|].
-        destruct (pass1 (upd m (b_id b) (c - 1)) tl) as [[m1 pre1] r1] eqn:P. inv H.
+        destruct (pass1 (upd m (b_key b) (c - 1)) tl) as [[m1 pre1] r1] eqn:P. inv H.
         apply IH in P. destruct P as [-> D]. split; [reflexivity|].
         apply N.eqb_neq in E0. apply N.eqb_neq in E1.
-        intro x. specialize (D x). cbn [occ]. destruct (b_id b =? x) eqn:E.
+        intro x. specialize (D x). cbn [occ]. destruct (b_key b =? x) eqn:E.
         -- apply N.eqb_eq in E. subst x. rewrite upd_same in D. rewrite Eb. destruct D as [D1 D2].
            rewrite D1. split; [f_equal; lia|lia].
         -- apply N.eqb_neq in E. rewrite upd_other in D by congruence.
@@ -58,7 +58,7 @@ Proof.
     + destruct (pass1 m tl) as [[m1 pre1] r1] eqn:P. inv H.
       apply IH in P. destruct P as [-> D]. split; [reflexivity|].
       intro x. specialize (D x). cbn [occ]. destruct (m x) as [cx|] eqn:Ex; [|exact D].
-      destruct (b_id b =? x) eqn:E.
+      destruct (b_key b =? x) eqn:E.
       * apply N.eqb_eq in E. subst x. congruence.
       * destruct D as [D1 D2]. rewrite D1. split; [f_equal; lia|lia].
 Qed.
@@ -67,7 +67,7 @@ Qed.
 Definition found_rel (m m' : umap) (pre : list blob) (b : blob) : Prop :=
   forall x, match m x with
             | None => m' x = None
-            | Some c => if x =? b_id b then m' x = Some 0
+            | Some c => if x =? b_key b then m' x = Some 0
                         else m' x = Some (c - occ x pre) /\ (1 <= c -> 1 <= c - occ x pre)
             end.
 
@@ -75,36 +75,36 @@ Lemma pass1_some : forall bs m m' pre b suf,
   pass1 m bs = (m', pre, Some (b, suf)) -> bs = pre ++ b :: suf /\ found_rel m m' pre b.
 Proof.
   induction bs as [|a tl IH]; intros m m' pre b suf H; cbn [pass1] in H; [inv H|].
-  destruct (m (b_id a)) as [c|] eqn:Ea.
+  destruct (m (b_key a)) as [c|] eqn:Ea.
   - destruct (c =? 0) eqn:E0.
     + destruct (pass1 m tl) as [[m1 pre1] r1] eqn:P. inv H.
       apply IH in P. destruct P as [-> D]. split; [reflexivity|].
       apply N.eqb_eq in E0. subst c.
       intro x. specialize (D x). destruct (m x) as [cx|] eqn:Ex; [|exact D].
-      destruct (x =? b_id b) eqn:Exb; [exact D|]. cbn [occ].
-      destruct D as [D1 D2]. destruct (b_id a =? x) eqn:E.
+      destruct (x =? b_key b) eqn:Exb; [exact D|]. cbn [occ].
+      destruct D as [D1 D2]. destruct (b_key a =? x) eqn:E.
       * apply N.eqb_eq in E. subst x. rewrite Ea in Ex. inv Ex. rewrite D1. split; [f_equal; lia|lia].
       * rewrite D1. split; [f_equal; lia|lia].
     + apply N.eqb_neq in E0. destruct (c - 1 =? 0) eqn:E1.
       * inv H. split; [reflexivity|]. apply N.eqb_eq in E1.
-        intro x. destruct (x =? b_id b) eqn:Exb.
+        intro x. destruct (x =? b_key b) eqn:Exb.
         -- apply N.eqb_eq in Exb. subst x. rewrite Ea. rewrite upd_same. f_equal. exact E1.
         -- apply N.eqb_neq in Exb. rewrite upd_other by exact Exb.
            destruct (m x); [|reflexivity]. cbn [occ]. split; [f_equal; lia|lia].
       * apply N.eqb_neq in E1.
-        destruct (pass1 (upd m (b_id a) (c - 1)) tl) as [[m1 pre1] r1] eqn:P. inv H.
+        destruct (pass1 (upd m (b_key a) (c - 1)) tl) as [[m1 pre1] r1] eqn:P. inv H.
         apply IH in P. destruct P as [-> D]. split; [reflexivity|].
-        intro x. specialize (D x). cbn [occ]. destruct (b_id a =? x) eqn:E.
+        intro x. specialize (D x). cbn [occ]. destruct (b_key a =? x) eqn:E.
         -- apply N.eqb_eq in E. subst x. rewrite upd_same in D. rewrite Ea.
-           destruct (b_id a =? b_id b); [exact D|]. destruct D as [D1 D2]. rewrite D1. split; [f_equal; lia|lia].
+           destruct (b_key a =? b_key b); [exact D|]. destruct D as [D1 D2]. rewrite D1. split; [f_equal; lia|lia].
         -- apply N.eqb_neq in E. rewrite upd_other in D by congruence.
-           destruct (m x) as [cx|]; [|exact D]. destruct (x =? b_id b); [exact D|].
+           destruct (m x) as [cx|]; [|exact D]. destruct (x =? b_key b); [exact D|].
            destruct D as [D1 D2]. rewrite D1. split; [f_equal; lia|lia].
   - destruct (pass1 m tl) as [[m1 pre1] r1] eqn:P. inv H.
     apply IH in P. destruct P as [-> D]. split; [reflexivity|].
     intro x. specialize (D x). destruct (m x) as [cx|] eqn:Ex; [|exact D].
-    destruct (x =? b_id b); [exact D|]. cbn [occ].
-    destruct (b_id a =? x) eqn:E.
+    destruct (x =? b_key b); [exact D|]. cbn [occ].
+    destruct (b_key a =? x) eqn:E.
     + apply N.eqb_eq in E. subst x. congruence.
     + destruct D as [D1 D2]. rewrite D1. split; [f_equal; lia|lia].
 Qed.
@@ -124,18 +124,18 @@ Proof.
   induction bs as [|b tl IH]; intros m m' u H x; cbn [mark_used] in H.
   - inv H. reflexivity.
   - cbn [ids map mem existsb]. fold (ids tl). fold (mem x (ids tl)).
-    destruct (m (b_id b)) as [c|] eqn:Eb.
+    destruct (m (b_key b)) as [c|] eqn:Eb.
     + destruct (c =? 0) eqn:E0.
-      * rewrite (IH _ _ _ H x). destruct (x =? b_id b) eqn:E; cbn [orb]; [|reflexivity].
+      * rewrite (IH _ _ _ H x). destruct (x =? b_key b) eqn:E; cbn [orb]; [|reflexivity].
         apply N.eqb_eq in E. subst x. apply N.eqb_eq in E0. subst c. rewrite Eb. cbn [option_map].
-        destruct (mem (b_id b) (ids tl)); reflexivity.
-      * destruct (mark_used (upd m (b_id b) 0) tl) as [m1 u1] eqn:M. inv H.
-        rewrite (IH _ _ _ M x). destruct (x =? b_id b) eqn:E; cbn [orb].
+        destruct (mem (b_key b) (ids tl)); reflexivity.
+      * destruct (mark_used (upd m (b_key b) 0) tl) as [m1 u1] eqn:M. inv H.
+        rewrite (IH _ _ _ M x). destruct (x =? b_key b) eqn:E; cbn [orb].
         -- apply N.eqb_eq in E. subst x. rewrite upd_same, Eb. cbn [option_map].
-           destruct (mem (b_id b) (ids tl)); reflexivity.
+           destruct (mem (b_key b) (ids tl)); reflexivity.
         -- apply N.eqb_neq in E. rewrite upd_other by exact E. reflexivity.
-    + rewrite (IH _ _ _ H x). destruct (x =? b_id b) eqn:E; cbn [orb]; [|reflexivity].
-      apply N.eqb_eq in E. subst x. rewrite Eb. cbn [option_map]. destruct (mem (b_id b) (ids tl)); reflexivity.
+    + rewrite (IH _ _ _ H x). destruct (x =? b_key b) eqn:E; cbn [orb]; [|reflexivity].
+      apply N.eqb_eq in E. subst x. rewrite Eb. cbn [option_map]. destruct (mem (b_key b) (ids tl)); reflexivity.
 Qed.
 
 (* ---------------------------------------------------------------- from_pack *)
@@ -161,14 +161,14 @@ Proof.
     intro x. rewrite (mark_used_spec _ _ _ _ M3 x), (mark_used_spec _ _ _ _ M2 x).
     rewrite ids_app, mem_app. cbn [ids map mem existsb]. fold (ids suf). fold (mem x (ids suf)).
     specialize (F x). destruct (m x) as [c|] eqn:Ex.
-    + destruct (x =? b_id b) eqn:E.
+    + destruct (x =? b_key b) eqn:E.
       * rewrite F. cbn [option_map]. destruct (mem x (ids pre)), (mem x (ids suf)); reflexivity.
       * destruct F as [F1 F2]. rewrite F1. cbn [option_map orb].
         destruct (mem x (ids pre)) eqn:Mp; cbn [orb option_map].
         -- destruct (mem x (ids suf)); reflexivity.
         -- destruct (mem x (ids suf)); [reflexivity|].
            f_equal. rewrite occ_notin; [lia|]. intro K. apply mem_In in K. congruence.
-    + rewrite F. cbn [option_map]. destruct (mem x (ids pre)), (mem x (ids suf)), (x =? b_id b); reflexivity.
+    + rewrite F. cbn [option_map]. destruct (mem x (ids pre)), (mem x (ids suf)), (x =? b_key b); reflexivity.
   - inv H. cbn [pi_type pi_used_blobs]. split; [reflexivity|]. left. split; [reflexivity|].
     apply pass1_none in P. destruct P as [-> D]. exact D.
 Qed.
@@ -194,15 +194,15 @@ Proof.
   - rewrite A in B. exact B.
 Qed.
 
-Lemma count_blob_rel : forall m b, cnt_rel m (count_blob m b) (fun x => if b_id b =? x then 1 else 0).
+Lemma count_blob_rel : forall m b, cnt_rel m (count_blob m b) (fun x => if b_key b =? x then 1 else 0).
 Proof.
-  intros m b x. unfold count_blob. destruct (m (b_id b)) as [cb|] eqn:Eb.
-  - destruct (b_id b =? x) eqn:E.
+  intros m b x. unfold count_blob. destruct (m (b_key b)) as [cb|] eqn:Eb.
+  - destruct (b_key b =? x) eqn:E.
     + apply N.eqb_eq in E. subst x. rewrite Eb, upd_same. exists (sat_inc cb). split; [reflexivity|].
       unfold sat_inc, cnt_max. destruct (cb <? 255) eqn:L; split; lia.
     + apply N.eqb_neq in E. rewrite upd_other by congruence. destruct (m x) as [c|]; [|reflexivity].
       exists c. split; [reflexivity|]. split; lia.
-  - destruct (m x) as [c|] eqn:Ex; [|reflexivity]. destruct (b_id b =? x) eqn:E.
+  - destruct (m x) as [c|] eqn:Ex; [|reflexivity]. destruct (b_key b =? x) eqn:E.
     + apply N.eqb_eq in E. subst x. congruence.
     + exists c. split; [reflexivity|]. split; lia.
 Qed.
